@@ -68,12 +68,23 @@ class End:
         if relay:
             self.p.use_relay(build_sided_relay_handshake(key, "a" * 16))
 
+    late_select = False      # the Connector's accept() runs in a later eventual-queue turn: records that arrive in between
+    selected = False         # wait in the connection's inbound queue
+
     def _add_candidate(self, p):
         self.candidate += 1
+        if self.late_select:
+            return
+        self.select_now()
+
+    def select_now(self):
         # the Leader selects at once here; the Follower selects when the Leader's KCM arrives (same call)
-        p.select(self.manager)
+        if self.selected:
+            return
+        self.selected = True
+        self.p.select(self.manager)
         if self.role is LEADER:
-            p.send_record(C.KCM())
+            self.p.send_record(C.KCM())
 
 
 class Holder(protocol.Factory):
@@ -201,17 +212,19 @@ def settle(pair, relay_ok=True, chunking="whole", rng=None, stop_before=None):
             break
 
 
-def run_roundtrip(tid, rc, chunking, direction, relay, rng):
+def run_roundtrip(tid, rc, chunking, direction, relay, rng, late=False):
     logged = Logged()
     log.addObserver(logged)
     try:
         pair = Pair(relay=relay)
+        # late: the receiving Follower is a candidate but its Connector has not accepted it yet when the records arrive
+        pair.F.late_select = bool(late and direction == "l2f")
         # the relay reply, the prologues, the handshake messages and the KCMs arrive under the same fragmentation
         settle(pair, chunking=chunking, rng=rng)
         src, dst = (pair.L, pair.F) if direction == "l2f" else (pair.F, pair.L)
         before = len(dst.records)
         rec = concretise_record(rc, rng)
-        sent = [rec, C.Ack(7)]
+        sent = [rec, C.Ack(7)] + ([C.Close(3, 9), C.Ack(8)] if pair.F.late_select else [])
         ok_ready = src.p._can_send_records and dst.candidate > 0
         raised = []
         if ok_ready:
@@ -221,12 +234,17 @@ def run_roundtrip(tid, rc, chunking, direction, relay, rng):
                 except Exception as e:          # send_record() of a legal record must not raise
                     raised.append("send_record: %r" % (e,))
             feed(pair, dst, drain_writes(pair, src), chunking, rng)
+            if pair.F.late_select:
+                queued_before_select = len(dst.records) - before
+                pair.F.select_now()
+                if queued_before_select:
+                    raised.append("%d records reached the manager before the connection was selected" % queued_before_select)
         got = dst.records[before:]
         internal = [repr(e)[:100] for e in logged.items] + [x[:100] for x in raised]
         return {"tid": tid, "kind": "roundtrip", "identical": ok_ready and got == sent, "got": len(got), "sent": len(sent),
                 "atFault": -1, "dropped": not dst.p.transport.connected or dst.p.transport.disconnecting, "stalled": False,
                 "candidate": dst.candidate > 0, "faultKind": "-", "internal": internal, "rc": rc, "chunking": chunking,
-                "direction": direction, "relay": relay}
+                "direction": direction, "relay": relay, "late": bool(pair.F.late_select)}
     finally:
         log.removeObserver(logged)
 
@@ -384,7 +402,8 @@ def run(prop, tier):
                     if quick and direction == "f2l" and chunking != "whole":
                         continue
                     tid += 1
-                    records.append(run_roundtrip(tid, rc, chunking, direction, relay=(tid % 5 == 0), rng=random.Random(seed * 17 + tid)))
+                    records.append(run_roundtrip(tid, rc, chunking, direction, relay=(tid % 5 == 0), rng=random.Random(seed * 17 + tid),
+                                                 late=(tid % 3 == 0)))
         for (relay, kind, at) in behaviours:
             genuine = (["relayok"] if relay else []) + ["prologue", "handshake", "kcm", "record", "record", "record"]
             tok = genuine[at - 1]
@@ -439,7 +458,7 @@ def run(prop, tier):
 def replay(prop, path):
     d = json.load(open(path))["replay"]["case"]
     if d["kind"] == "roundtrip":
-        rec = run_roundtrip(1, d["rc"], d["chunking"], d["direction"], d["relay"], random.Random(1))
+        rec = run_roundtrip(1, d["rc"], d["chunking"], d["direction"], d["relay"], random.Random(1), late=d.get("late", False))
     else:
         rec = run_fault(1, d["faultKind"], d["at"], 3, d["chunking"], d["direction"], d["relay"], random.Random(1), 0)
     print(json.dumps(rec, indent=1))
